@@ -155,14 +155,49 @@ def r2_refusals(ctx):
             raise AnalysisError("C14.R2", f"anchor vanished: {qual}")
         cfg = CFG(f.node)
         cn = Canon(f.node)
-        found = False
+        toks = needle if isinstance(needle, tuple) else (needle,)
+        cands = []
         for r in cfg.nodes(lambda s: isinstance(s, ast.Raise)):
-            for h, lab in cfg.if_guards(r):
-                toks = needle if isinstance(needle, tuple) else (needle,)
-                if all(t in cn.text(cfg.stmt[h].test) for t in toks):
-                    found = True
-        ctx.check(found, "C14.R2", f, f.node, f"refusal present: {what}", f"the refusal of `{what}` (guard containing {needle}) is gone: such tables are silently accepted",
+            chain = [(h, cn.text(cfg.stmt[h].test), lab) for h, lab in cfg.if_guards(r)]
+            if any(lab and all(t in g for t in toks) for _, g, lab in chain):
+                cands.append((r, chain))
+        ctx.check(bool(cands), "C14.R2", f, f.node, f"refusal present: {what}", f"the refusal of `{what}` (a raise guarded by a test containing {needle}) is gone: such tables are silently accepted",
                   construct=f"refusal: {what}")
+        # the refusal is unconditional: on the way to the raise no other test has to hold (beyond the confirmed context), and every test
+        # that has to fail is itself a refusal (its branch raises)
+        ctxt = CONTEXT.get(what, set())
+        for r, chain in cands:
+            for h, g, lab in chain:
+                own = all(t in g for t in toks)
+                if lab and not own and g not in ctxt:
+                    ctx.violation("C14.R2", f, cfg.stmt[h], f"the refusal of `{what}` now only fires when `{g[:90]}` also holds: malformed tables for which it does not are silently accepted",
+                                  construct=f"refusal unconditional: {what}")
+                elif not lab and not own and ("not:" + g) not in ctxt and not _branch_always_raises(cfg.stmt[h]):
+                    ctx.violation("C14.R2", f, cfg.stmt[h], f"the refusal of `{what}` is skipped when `{g[:90]}` holds (that branch does not refuse): such tables are silently accepted",
+                                  construct=f"refusal unconditional: {what}")
+        if cands:
+            ctx.ok("C14.R2", f, cands[0][0], f"refusal of {what}: no additional condition on the way to the raise", construct=f"refusal unconditional: {what}")
+
+
+# confirmed positive context of a refusal (tests that legitimately have to hold as well), `not:<test>` = a test that has to fail whose branch does not raise
+CONTEXT = {
+    "negative integer identifier": {"pd.api.types.infer_dtype($1) == 'integer'"},
+    "empty string identifier": {"pd.api.types.infer_dtype($1) == 'string'", "not:pd.api.types.infer_dtype($1) == 'integer'"},  # if integer: ... elif string: ...
+    "event before the last visit": {"not:$1.reset_index().groupby('ID').max()[~($1.reset_index().groupby('ID').max()[$0.event_time_name] - $1.reset_index().groupby('ID').max()['TIME'] >= -$0.tol_diff)][$0.event_bool_name].sum() == 0"},
+}
+
+
+def _branch_always_raises(if_node) -> bool:
+    def ends(body):
+        if not body:
+            return False
+        last = body[-1]
+        if isinstance(last, ast.Raise):
+            return True
+        if isinstance(last, ast.If):
+            return ends(last.body) and ends(last.orelse)
+        return False
+    return isinstance(if_node, ast.If) and ends(if_node.body)
 
 
 def r3_ordering(ctx):
